@@ -371,3 +371,10 @@ func specSameValueModelled(a Value) bool {
 	}
 	return false
 }
+
+func specB2I(b bool) int {
+	if b {
+		return 1
+	}
+	return 0
+}
